@@ -3,6 +3,7 @@ from __future__ import annotations
 
 import base64
 import copy
+import json
 import random
 
 from indi.message import IndiMessage
@@ -73,7 +74,8 @@ def _valid_child(rng, kind, e):
     # (the format is free text; ".z" conventionally announces a compressed payload - these bytes are not a zlib stream, so the
     # only things to do with them are to keep them as they are or to refuse them)
     fmt = rng.choice([".bin", ".bin", ".fits.z", ".z", ".fits.fz"])
-    return (f'<oneBLOB name="{n}" size="{len(data)}" format="{fmt}">{base64.b64encode(data).decode()}</oneBLOB>', (n, (data, fmt)))
+    return (f'<oneBLOB name="{n}" size="{len(data)}" format="{fmt}">{base64.b64encode(data).decode()}</oneBLOB>',
+            (n, {"blob_hex": data.hex(), "format": fmt}))
 
 
 def hostile(rng, entry, dev, v):
@@ -148,7 +150,7 @@ def hostile(rng, entry, dev, v):
     if entry == "empty_value":
         n = e["name"]
         if kind == "BLOB":
-            return {"xml": wrap(f'<oneBLOB name="{n}" size="0" format=".e"/>'), "valid": [(n, (b"", ".e"))], "parser_ok": True}
+            return {"xml": wrap(f'<oneBLOB name="{n}" size="0" format=".e"/>'), "valid": [(n, {"blob_hex": "", "format": ".e"})], "parser_ok": True}
         if kind == "Switch":
             return {"xml": wrap(f'<oneSwitch name="{n}"/>'), "valid": [], "parser_ok": False}
         child = f'<{ONE[kind]} name="{n}"></{ONE[kind]}>'
@@ -289,9 +291,10 @@ def generate(seed, tier, index):
         h2["entry"] = h2.get("entry", e2)
         steps.insert(rng.randint(1, len(steps)), {"op": "hostile", **h2})
     net = {"latency": rng.choice(["zero", "lan", "slow"]), "frag": rng.choice(["whole", "fixed:7", "random", "coalesce"]), "hwm": rng.choice([64, 65536])}
-    return {"devices": specs, "steps": steps, "net": net, "transport": transport, "target": tv["name"], "live": lv["name"],
+    scen = {"devices": specs, "steps": steps, "net": net, "transport": transport, "target": tv["name"], "live": lv["name"],
             "write_handler": rng.random() < 0.5 or entry == "huge_number",
             "kind": kind, "seed": rng.randrange(1 << 30), "pos_class": "early" if pos <= 2 else ("late" if pos >= len(session) - 1 else "mid")}
+    return json.loads(json.dumps(scen))  # exactly what a replay file holds (tuples become lists)
 
 
 # ---------------------------------------------------------------------------------------
@@ -449,6 +452,8 @@ def execute(scen):
                     allowed[(dev0, scen["target"], k)] = [val]
             else:
                 for nme, val in st["valid"]:
+                    if isinstance(val, dict):  # (BLOB values are kept as hex in the scenario: replay files are JSON)
+                        val = (bytes.fromhex(val["blob_hex"]), val["format"])
                     allowed.setdefault((dev0, scen["target"], nme), []).append(val)
             for key, b in before.items():
                 a = after[key]
